@@ -88,7 +88,7 @@ theorem vacancyOf_eq (v : Option Value) : vacancyOf v = (Vacancy.of v).getD .uns
     characters that are unquoted results of a hard expansion, a quoting `"` as the mark of an empty pathname -/
 theorem tilde_constants_today :
     Generated.ExpansionTables.tildeHomeVar = "HOME" ∧ Generated.ExpansionTables.tildeHomeFallback = ['~'] ∧
-    Generated.ExpansionTables.tildeUnknownPrefix = ['~'] ∧ Generated.ExpansionTables.tildeSlash = '/' ∧
+    Generated.ExpansionTables.tildeUnknownPrefix = ['~'] ∧ Generated.ExpansionTables.tildeSlash = some '/' ∧
     (∀ c, hardChar c = protectedChar c) ∧ tildeDummyQuote = emptyPathnameMark :=
   ⟨rfl, rfl, rfl, rfl, fun _ => rfl, rfl⟩
 
